@@ -449,6 +449,7 @@ REGRESSIONS = [
     'std.sort([std.sum([1.7976931348623157e308, 1.7976931348623157e308, -1.7976931348623157e308, -1.7976931348623157e308]), 1])',
     'std.sum([1.7976931348623157e308, 1.7976931348623157e308]) < 1', 'std.avg([1.7976931348623157e308, 1.7976931348623157e308])',
     '"%5s" % "\u00e9\u00e9\u00e9"', "'\xc0\x80'",
+    "\ufeff{a: 1}", "'a' + \u0301", "{a: 1}\u200b", "\u0730",
 ]
 
 
@@ -469,7 +470,7 @@ CHECKS = [
     Check("stdlib_matrix_product", check_stdlib, enumerate_fn=enum_stdlib, exhaustive=True),
     Check("bytes_and_mutated_corpus", check_bytes, bytes_case, quick=350, thorough=30000),
     Check("syntax_tree_programs", check_program, program_case, quick=200, thorough=12000),
-    Check("near_valid_programs", check_near_valid, near_valid_case, quick=25, thorough=1000),
+    Check("near_valid_programs", check_near_valid, near_valid_case, quick=60, thorough=1500),
     Check("bindings", check_bindings, binding_case, quick=80, thorough=4000),
     Check("deep_nesting_probe", check_probe, enumerate_fn=enum_probe, workers=1),
     Check("regression_sources", check_regression, enumerate_fn=enum_regressions),
